@@ -275,9 +275,13 @@ package runner
 //@ func (*TaskRunner).Finish
 //@   requires r != nil
 //@   modifies *
+// ghost: the runner's (only) context has been cancelled — Run refuses to start from then on
+//@ ghost ctxCancelled map[*TaskRunner]bool
+// Cancel: ASSUMED (mutex, channel hand-shake): cancels the runner context; nothing else the contracts talk about changes
 //@ func (*TaskRunner).Cancel
 //@   requires r != nil
-//@   modifies *
+//@   modifies ctxCancelled, r.canceling
+//@   ensures ctxCancelled[r] && (forall x *TaskRunner :: old(ctxCancelled[x]) ==> ctxCancelled[x])
 //@ func NewTaskRunner
 //@   modifies *
 //@   ensures result#1 == nil ==> result != nil
